@@ -17,7 +17,8 @@ def handlers : List (List Sexp → Option Sexp) :=
     Driver.settingsHandle,
     Driver.wordPathsHandle,
     Driver.sugarHandle,
-    Driver.infixHandle ]
+    Driver.infixHandle,
+    Driver.namesHandle ]
 
 def dispatch (line : String) : String :=
   match Sexp.parseAll line with
